@@ -327,13 +327,13 @@ func (c *Ctx) checkPair(rule string, only map[string]bool) int {
 				key := uniq(fname + "/" + e.x + ".delNeighbor(" + e.y + ")")
 				ok := has(func(o pairEvent) bool {
 					return (o.kind == "D" && o.x == e.y && o.y == e.x) ||
-						(o.kind == "discard" && (o.x == e.x || o.x == e.y)) ||
+						(o.kind == "discard" && o.x == e.y) ||
 						(o.kind == "N" && o.y == e.y)
 				})
 				if ok {
-					c.OK(rule, key, e.pos, "matched by the reverse removal, a discard of one side, or an in-place replacement on the other side")
+					c.OK(rule, key, e.pos, "matched by the reverse removal, the discard of the removed node, or an in-place replacement in its neighbour list")
 				} else {
-					c.Violation(rule, key, e.pos, fmt.Sprintf("%s is removed from the neighbours of %s, but in %s nothing removes %s from the neighbours of %s (no reverse delNeighbor, no discard of either node, no in-place replacement): adjacency becomes asymmetric", e.y, e.x, fname, e.x, e.y)).Clause = "connected acyclic tree with symmetric adjacency"
+					c.Violation(rule, key, e.pos, fmt.Sprintf("%s is removed from the neighbours of %s, but in %s nothing removes %s from the neighbours of %s (no reverse delNeighbor, no discard of %s, no in-place replacement in its list): adjacency becomes asymmetric", e.y, e.x, fname, e.x, e.y, e.y)).Clause = "connected acyclic tree with symmetric adjacency"
 				}
 			case "A":
 				sites++
